@@ -19,12 +19,13 @@ import (
 )
 
 type rsCase struct {
-	Pub   string `json:"pub"`   // rtsp | rtmp
-	Video string `json:"video"` // avc | hevc | ""
-	Audio bool   `json:"audio"`
-	Aggr  bool   `json:"aggregate"` // parameter sets in one aggregation packet (RTSP publisher)
-	Join  int    `json:"join"`      // the player joins before step Join (-1: before the publisher arrives)
-	Join2 int    `json:"join2"`     // a second player (-2: none)
+	Pub    string `json:"pub"`   // rtsp | rtmp
+	Video  string `json:"video"` // avc | hevc | ""
+	Audio  bool   `json:"audio"`
+	Aggr   bool   `json:"aggregate"`        // parameter sets in one aggregation packet (RTSP publisher)
+	Join   int    `json:"join"`             // the player joins before step Join (-1: before the publisher arrives)
+	Join2  int    `json:"join2"`            // a second player (-2: none)
+	ACodec string `json:"acodec,omitempty"` // RTMP publisher's audio: "" AAC | pcmu | pcma | opus (no sequence header)
 }
 
 var (
@@ -102,6 +103,9 @@ func rsScript(c rsCase) []rsStep {
 	rsFrames := 2 // GOPs in the script
 	if rsKnown(c) == 16 {
 		rsFrames = 8
+		if c.Video == "" {
+			rsFrames = 12 // (two audio messages per round: the stream is described after the first eight rounds)
+		}
 	}
 	if c.Pub == "rtsp" {
 		vseq, aseq := uint16(65534), uint16(10)
@@ -179,8 +183,19 @@ func rsScript(c rsCase) []rsStep {
 		}
 		addM(9, 0, b, false, false)
 	}
-	if c.Audio {
+	if c.Audio && c.ACodec == "" {
 		addM(8, 0, []byte{0xaf, 0, rsAsc[0], rsAsc[1]}, false, false)
+	}
+	aframe := func(n int) []byte {
+		switch c.ACodec {
+		case "pcmu":
+			return []byte{0x82, 0x21, byte(n), 0x55, 0x66, 0x77}
+		case "pcma":
+			return []byte{0x72, 0x21, byte(n), 0x55, 0x66, 0x77}
+		case "opus":
+			return []byte{0xdf, 0x21, byte(n), 0x55, 0x66, 0x77}
+		}
+		return []byte{0xaf, 1, 0x21, byte(n), 0x55, 0x66}
 	}
 	kf, inf := byte(0x17), byte(0x27)
 	if c.Video == "hevc" {
@@ -192,14 +207,14 @@ func rsScript(c rsCase) []rsStep {
 			addM(9, base, frame(kf, rsNal(c.Video, true, 4000, g)), true, true)
 		}
 		if c.Audio {
-			addM(8, base, []byte{0xaf, 1, 0x21, byte(2 * g), 0x55, 0x66}, false, false)
+			addM(8, base, aframe(2*g), false, false)
 		}
 		if c.Video != "" {
 			addM(9, base+40, frame(inf, rsNal(c.Video, false, 60, g)), true, false)
 			addM(9, base+80, frame(inf, rsNal(c.Video, false, 3000, g)), true, false)
 		}
 		if c.Audio {
-			addM(8, base+80, []byte{0xaf, 1, 0x21, byte(2*g + 1), 0x55, 0x66}, false, false)
+			addM(8, base+80, aframe(2*g+1), false, false)
 		}
 	}
 	return st
@@ -354,7 +369,7 @@ func rsRunStat(c rsCase) (vs []rsViol, stat rsStat, infra error) {
 		vs = append(vs, rsViol{"rtsp-sub/panic", p})
 	}
 	for _, pl := range players {
-		who := fmt.Sprintf("RTSP player joining before step %d of a %s publisher (%s, audio %v)", pl.join, c.Pub, c.Video, c.Audio)
+		who := fmt.Sprintf("RTSP player joining before step %d of a %s publisher (%s, audio %v %s)", pl.join, c.Pub, c.Video, c.Audio, c.ACodec)
 		if pl.p.Err != nil {
 			vs = append(vs, rsViol{"rtsp-sub/framing", who + ": " + pl.p.Err.Error()})
 			continue
@@ -402,14 +417,14 @@ func rsRunStat(c rsCase) (vs []rsViol, stat rsStat, infra error) {
 		} else if c.Audio {
 			// no video: never held back. Every audio packet published once the player is set up reaches it at once
 			for i, s := range script {
-				if i < pl.join || i <= known || s.video {
+				if i < pl.join || i <= known+2 || s.video { // (a held DESCRIBE is answered once the tracks are known; SETUP and PLAY take the next steps)
 					continue
 				}
 				prev := 0
 				if i > 0 {
 					prev = pl.audioAt[i-1]
 				}
-				if c.Pub == "rtmp" && s.msg.Payload[1] == 0 {
+				if c.Pub == "rtmp" && c.ACodec == "" && s.msg.Payload[1] == 0 {
 					continue
 				}
 				if pl.audioAt[i] <= prev {
@@ -424,6 +439,13 @@ func rsRunStat(c rsCase) (vs []rsViol, stat rsStat, infra error) {
 
 func rsCases(quick bool) []rsCase {
 	var cs []rsCase
+	// RTMP publishers with G.711 / Opus audio and no video (payload type 0 and 8 are static; nothing announces them)
+	for _, ac := range []string{"pcmu", "pcma", "opus"} {
+		n := len(rsScript(rsCase{Pub: "rtmp", Audio: true, ACodec: ac}))
+		for j := -1; j < n; j++ {
+			cs = append(cs, rsCase{Pub: "rtmp", Audio: true, ACodec: ac, Join: j, Join2: -2})
+		}
+	}
 	for _, pub := range []string{"rtsp", "rtmp"} {
 		for _, v := range []string{"avc", "hevc", ""} {
 			for _, a := range []bool{true, false} {
